@@ -420,6 +420,7 @@ def run(tier):
     rule_R3(res, prog)
     rule_R4(res, prog)
     rule_R1i(res, prog, cg)
+    rule_R5(res, prog)
     return res.finish()
 
 
@@ -749,3 +750,62 @@ def rule_R1i(res, prog, cg):
                                  fn.relfile, ln, name, what, o.need, o.detail[:140]), file=fn.relfile, line=ln)
             res.instance(rid, "parseSSLHandshake:%s [%s] %s" % (ln, name, what), ok, finding=f_)
     res.floor(rid, 4)
+
+
+def rule_R5(res, prog):
+    """CBC records in matrixSslDecodeTls12AndBelow (excluded from R1): the explicit IV is skipped (decryptedStart +=
+    ssl->deBlockSize) and the MAC is located padLen + 1 + deMacSize bytes before the end, so the length handed to
+    ssl->verifyMac is rec.len - deBlockSize - padLen - 1 - deMacSize.  Every path from the read of the padding length to the
+    IV skip must have passed a comparison of ssl->rec.len with a sum that contains all of deMacSize, padLen and deBlockSize
+    (paths on which the version has no explicit IV never take the skip).  Otherwise a record with valid padding that leaves
+    no room for the IV yields a negative MAC length (a ~4 GiB HMAC over the receive buffer)."""
+    rid = "C08.R5"
+    res.rule(rid, "CBC: the minimum-length test before the MAC accounts for the explicit IV that is skipped later")
+    fn = prog.fn("matrixSslDecodeTls12AndBelow")
+    mask = prog.enums.get("v_tls_explicit_iv")
+    reads = cu.find_sites(fn, lambda n: n.get("k") == "bin" and n["op"] == "=" and (strip(n["l"]) or {}).get("k") == "var" and
+                          (strip(n["l"]) or {}).get("n") == "padLen" and any(m.get("k") == "un" and m["op"] == "*" for m in walk(n["r"])))
+    if not reads:
+        raise AnalysisBroken("C08.R5: read of padLen not found in matrixSslDecodeTls12AndBelow")
+
+    def full_check(x):
+        for m in walk(x):
+            if m.get("k") == "bin" and m["op"] in ("<", "<=", ">", ">="):
+                sides = [strip(m["l"]), strip(m["r"])]
+                if any(s_ is not None and s_.get("k") == "mem" and s_.get("f") == "len" for s_ in sides) or \
+                        any(q.get("k") == "mem" and q.get("f") == "len" and q.get("r") in ("sslRec", "sslRec_t", None) for s_ in sides if s_ is not None for q in walk(s_)):
+                    names = set()
+                    for s_ in sides:
+                        if s_ is None:
+                            continue
+                        for q in walk(s_):
+                            if q.get("k") == "mem":
+                                names.add(q.get("f"))
+                            if q.get("k") == "var":
+                                names.add(q.get("n"))
+                    if {"deMacSize", "padLen", "deBlockSize"} <= names:
+                        return True
+        return False
+
+    def no_iv_edge(b, k):
+        t = b.get("term")
+        if t is None or "c" not in t or len(b["succ"]) != 2:
+            return False
+        return any((not tr) and txt == "(ssl->activeVersion & %d)" % mask for (txt, tr, nd) in cu._cond_atoms(t["c"], k == 0))
+
+    def iv_skip(x):
+        return any(m.get("k") == "bin" and m["op"] == "+=" and (strip(m["l"]) or {}).get("n") == "decryptedStart" and
+                   any(q.get("k") == "mem" and q.get("f") == "deBlockSize" for q in walk(m["r"])) for m in walk(x))
+    if not cu.find_sites(fn, lambda n: n.get("k") == "bin" and n["op"] == "+=" and (strip(n["l"]) or {}).get("n") == "decryptedStart"):
+        raise AnalysisBroken("C08.R5: the explicit-IV skip was not found")
+    for (bid, idx, ln, node) in reads:
+        esc = cu.escapes(fn, (bid, idx), full_check, exempt_edge=no_iv_edge, target_expr=iv_skip)
+        f_ = None
+        if esc is not None:
+            f_ = Finding(PROP, rid, fn.name, "explicit IV not counted in the minimum CBC record length",
+                         "%s:%s matrixSslDecodeTls12AndBelow(): from the read of padLen (line %s) the explicit-IV skip at line %s is reached "
+                         "(via lines %s) without a comparison of ssl->rec.len with deMacSize + padLen + 1 + deBlockSize: for a record with "
+                         "valid padding but no room for the IV the MAC pointer lies before the data start and ssl->verifyMac gets a "
+                         "negative length" % (fn.relfile, ln, ln, esc[-1][1], [p_[1] for p_ in esc[-6:-1]]), file=fn.relfile, line=ln)
+        res.instance(rid, "matrixSslDecodeTls12AndBelow:%s padLen read -> IV skip passes the full minimum-length test" % ln, esc is None, finding=f_)
+    res.floor(rid, 1)
